@@ -898,8 +898,30 @@ def zoo_ops():
         "z_deepcopy_nested": lambda c: put(c, copy.deepcopy([{"k": (Z(c),)}])[0]["k"][0], [], None),
         "z_protect": lambda c: put(c, mutation.protect_via_deepcopy([sys, {"z": Z(c)}])[1]["z"], [], None),
         "z_protect_values": lambda c: [zoo_protect(v) for v in zoo_values(True).values()],
+        "decl_attr_default": _decl_attr_default,        # in PENDING_OPS
     }
     return ops
+
+
+# TODO(main): docs/C20.candidate-1.md -- Attr.from_attr_value deep-copies a declared Attr outside the guard, so a
+# default holding a module cannot be declared through Attr(default=...) (TypeError at class decoration on the unchanged
+# tree).  The operation exists (replayable by name) but no generator draws it until the candidate is decided; after a
+# `fix:` commit empty this set.
+PENDING_OPS = {"decl_attr_default"}
+
+
+def _decl_attr_default(c):
+    from typing import Any
+    from spec_classes import Attr
+
+    @spec_class
+    class Decl:
+        x: list = Attr(default=[sys, {"k": os}])
+        y: Any = Attr(default=Holder(json, inner=[sys]))
+
+    d = Decl()
+    if not (same_copy([sys, {"k": os}], d.x) and same_copy(Holder(json, inner=[sys]), d.y)):
+        raise CheckFailed(f"declared defaults not copied faithfully: {d.x!r} {d.y!r}")
 
 
 def zoo_protect(v):
@@ -1027,7 +1049,7 @@ def seq_case_term(user, created0, events, planned):
 def gen_seq_cases(rng, tier):
     """-> list of dicts(kind, hist, user, created0, inject, boom)"""
     quick = tier == "quick"
-    allnames = list(op_pool(None))
+    allnames = [n for n in op_pool(None) if n not in PENDING_OPS]
     znames = [n for n in allnames if n.startswith("z")]          # operations on the Zoo instance of the context
     names = [n for n in allnames if n not in znames]
     starters = ["new_default", "new_kids", "new_deep", "sub1_new", "sub2_new", "sub2_new_args"]
@@ -1108,10 +1130,10 @@ def gen_injection_cases(rng, tier):
         ]
     hists += [
         (["z_transform_extra", "z_update_one_attr"], 0, False, False),
-        (["zk_new", "z_with_cust_attr"], 1, False, True),
     ]
     if not quick:
         hists += [
+            (["zk_new", "z_with_cust_attr"], 1, False, True),
             (["z_transform_table", "z_update_extra_same", "z_alias_read"], 1, True, True),
             (["z_new", "z_with_plist", "z_deepcopy"], 1, False, False),
             (["z_new_default", "zk_new", "z_reset_all"], 1, False, True),
